@@ -262,9 +262,126 @@ def h_web_step(c0: bytes, c1: bytes, target: int, body: bytes, cond: int) -> boo
     return run(body_web_step, c0, c1, target, body, cond)
 
 
+
+# ------------------------------------------------------------------ collection-level requests
+# (a name starting with '.' is accepted by MKCOL but deliberately hidden from the parent's listing, like .git:
+# outside the claim, see DESIGN 8.4)
+CNAMES = ["new", "cal", "ab", "a.ics", "x y"]
+
+
+def _coll_state(app, path, wsgi, prefix):
+    """Observable state of a collection through the protocol: {member: body} / None if it does not answer."""
+    r = mweb.call(app, "PROPFIND", path + "/", headers=[("Depth", "1")], xml=mweb.propfind_body("{DAV:}getetag"),
+                  prefix=prefix, wsgi=wsgi)
+    if r.kind != "multistatus":
+        return None
+    out = {}
+    base = prefix.rstrip("/") + path + "/"
+    for st in r.statuses:
+        if st.href == base:
+            continue
+        if not st.href.startswith(base):
+            return None
+        name = st.href[len(base):]
+        g = mweb.call(app, "GET", path + "/" + name.rstrip("/"), prefix=prefix, wsgi=wsgi)
+        out[name] = g.body if g.status_class == "2xx" and not name.endswith("/") else ("coll", g.status_class)
+    return out
+
+
+def _children(app, path, wsgi, prefix):
+    r = mweb.call(app, "PROPFIND", path + "/", headers=[("Depth", "1")], xml=mweb.propfind_body("{DAV:}resourcetype"),
+                  prefix=prefix, wsgi=wsgi)
+    if r.kind != "multistatus":
+        return None
+    base = prefix.rstrip("/") + path + "/"
+    import urllib.parse
+    return sorted(urllib.parse.unquote(st.href)[len(base):] for st in r.statuses if urllib.parse.unquote(st.href) != base)
+
+
+def body_coll_ops(c0, c1, v0, ni, text):
+    """One collection-level request (MKCOL / MKCALENDAR of a sibling, PROPPATCH of a property, DELETE of the
+    neighbouring collection) next to a calendar and an address book in arbitrary valid states: a success creates /
+    removes exactly the addressed collection, a refusal changes nothing, and in every case the members of the
+    collections NOT addressed answer GET with what they held - by this server and by a restarted one."""
+    op, kind, cfg, wsgi, prefix = ctx.PART
+    S = _store.pre_state([c0, c1, b""], 2)
+    A = {"c.vcf": v0} if len(v0) > 0 else {}
+    if not SP.invariant(S) or not SP.invariant(A):
+        return (True, "pre-invalid")
+    mweb.fresh_world(S, A, kind=kind, cfg=cfg)
+    app = mweb.make_app()
+    name = CNAMES[ni]
+    home = "/user/calendars"
+    kids0 = _children(app, home, wsgi, prefix)
+    if kids0 != ["cal/"]:
+        return (False, "setup")
+    want_cal, want_ab, want_kids = S, A, ["cal/"]
+    import xandikos.webdav as Wd_
+    if op in ("MKCOL", "MKCALENDAR"):
+        r = mweb.call(app, op, home + "/" + name, prefix=prefix, wsgi=wsgi)
+        exists = name == "cal"
+        if exists:
+            cls = op + ":exists"
+            if r.status_class == "2xx":
+                return (False, cls)
+        else:
+            cls = op + ":" + r.status_class
+            if r.status_class == "2xx":
+                want_kids = sorted(["cal/", name + "/"])
+                if _coll_state(app, home + "/" + name, wsgi, prefix) != {}:
+                    return (False, cls)
+    elif op == "PROPPATCH":
+        target = [mweb.CAL, mweb.AB][ni % 2]
+        el = Wd_.ET.Element("{DAV:}propertyupdate")
+        prop = Wd_.ET.SubElement(Wd_.ET.SubElement(el, "{DAV:}set"), "{DAV:}prop")
+        Wd_.ET.SubElement(prop, ["{DAV:}displayname", "{http://apple.com/ns/ical/}calendar-color",
+                                 "{urn:ietf:params:xml:ns:caldav}calendar-description"][ni % 3]).text = text
+        r = mweb.call(app, "PROPPATCH", target + "/", xml=el, content_type="text/xml", prefix=prefix, wsgi=wsgi)
+        cls = "PROPPATCH:" + (r.kind if r.kind != "response" else r.status_class)
+    else:  # DELETE of the address book (ni even) or of a collection that does not exist (ni odd)
+        target = mweb.AB if ni % 2 == 0 else "/user/contacts/" + name
+        r = mweb.call(app, "DELETE", target + "/", prefix=prefix, wsgi=wsgi)
+        gone = ni % 2 == 0
+        cls = "DELETE:" + ("ab" if gone else "missing") + ":" + r.status_class
+        if gone:
+            if r.status_class != "2xx":
+                return (False, cls)
+            want_ab = None
+        elif r.status_class == "2xx":
+            return (False, cls)
+    import xandikos.web as Wb
+    for restart in (False, True):
+        if restart:
+            Wb.open_store_from_path.cache_clear()
+            app = mweb.make_app()
+        if _coll_state(app, mweb.CAL, wsgi, prefix) != want_cal:
+            return (False, cls)
+        ab = _coll_state(app, mweb.AB, wsgi, prefix)
+        if ab != want_ab:
+            return (False, cls)
+        if want_ab is None and _children(app, "/user/contacts", wsgi, prefix) != []:
+            return (False, cls)
+        if _children(app, home, wsgi, prefix) != want_kids:
+            return (False, cls)
+    return (True, cls)
+
+
+def h_coll_ops(c0: bytes, c1: bytes, v0: bytes, ni: int, text: str) -> bool:
+    """
+    pre: len(c0) <= ctx.b.blen and len(c1) <= ctx.b.blen and len(v0) <= ctx.b.blen and len(text) <= 2
+    pre: 0 <= ni < 5
+    post: _
+    """
+    return run(body_coll_ops, c0, c1, v0, ni, text)
+
 _B = {"quick": {"n": 2, "blen": 2}, "thorough": {"n": 3, "blen": 3}}
 _WEB_PARTS_Q = [("PUT", False, "/"), ("PUT", True, "/dav/"), ("DELETE", False, "/"), ("DELETE", True, "/"),
                 ("POST", False, "/"), ("POST", True, "/dav/"), ("GET", True, "/")]
+_COLL_PARTS_Q = [("MKCOL", "tree", "git", False, "/"), ("MKCALENDAR", "bare", "git", True, "/dav/"),
+                 ("PROPPATCH", "tree", "file", False, "/"), ("PROPPATCH", "bare", "git", True, "/dav/"),
+                 ("DELETE", "tree", "git", True, "/")]
+_COLL_PARTS_T = [(m, k, c, w, p) for m in ("MKCOL", "MKCALENDAR", "PROPPATCH", "DELETE") for (k, c) in
+                 (("tree", "git"), ("tree", "file"), ("bare", "git")) for (w, p) in ((False, "/"), (True, "/dav/"))]
 _WEB_PARTS_T = [(m, w, p) for m in ("PUT", "DELETE", "POST", "GET") for w in (False, True) for p in ("/", "/dav/")]
 
 HARNESSES = [
@@ -297,6 +414,26 @@ HARNESSES = [
             encodes=["xandikos.web.CollectionSetResource.delete_member", "xandikos.web.StoreBasedCollection.destroy",
                      "xandikos.store.git.GitStore.destroy", "xandikos.caldav.MkcalendarMethod.handle",
                      "xandikos.web.open_store_from_path", "xandikos.store.git.GitStore._scan_uids"]),
+    Harness("coll_ops", h_coll_ops, body_coll_ops,
+            classes=[("MKCOL:2xx", ("MKCOL", "tree", "git", False, "/")), ("MKCOL:exists", ("MKCOL", "tree", "git", False, "/")),
+                     ("MKCALENDAR:2xx", ("MKCALENDAR", "bare", "git", True, "/dav/")),
+                     ("PROPPATCH:multistatus", ("PROPPATCH", "tree", "file", False, "/")),
+                     ("DELETE:ab:2xx", ("DELETE", "tree", "git", True, "/")),
+                     ("DELETE:missing:404", ("DELETE", "tree", "git", True, "/"))],
+            parts={"quick": _COLL_PARTS_Q, "thorough": _COLL_PARTS_T}, bounds=_B, budget={"quick": 75, "thorough": 400},
+            per_path_timeout={"quick": 40, "thorough": 90},
+            describe="one collection-level request (MKCOL / MKCALENDAR of a sibling, PROPPATCH of displayname / colour / "
+                     "description, DELETE of the neighbouring collection or of a missing one) beside a calendar and an "
+                     "address book in arbitrary valid states: exactly the addressed collection appears / disappears, a "
+                     "refusal changes nothing, every member of the other collections still answers GET with its content, "
+                     "also after a restart; part = (method, store kind, metadata back end, WSGI?, route prefix)",
+            encodes=["xandikos.webdav.MkcolMethod.handle", "xandikos.caldav.MkcalendarMethod.handle",
+                     "xandikos.webdav.ProppatchMethod.handle", "xandikos.webdav.apply_modify_prop",
+                     "xandikos.webdav.DeleteMethod.handle", "xandikos.web.XandikosBackend.create_collection",
+                     "xandikos.web.CollectionSetResource.members", "xandikos.web.CollectionSetResource.delete_member",
+                     "xandikos.web.StoreBasedCollection.destroy", "xandikos.store.git.GitStore.set_type",
+                     "xandikos.store.git.GitStore.set_description", "xandikos.store.config.FileBasedCollectionMetadata._save",
+                     "xandikos.store.git.TreeGitStore.create"]),
     Harness("web_step", h_web_step, body_web_step,
             classes=[("PUT:2xx", ("PUT", False, "/")), ("PUT:412", ("PUT", True, "/dav/")), ("DELETE:2xx", ("DELETE", False, "/")),
                      ("DELETE:404", ("DELETE", True, "/")), ("DELETE:412", ("DELETE", False, "/")),
